@@ -345,6 +345,7 @@ int main()
             continue;
         auto f = vh::fields(line);
         std::string out;
+        vh::case_alarm(40); // a hang is an observation (`abort:` for this line), not a stuck check
         try
         {
             if (line.rfind("emb ", 0) == 0)
@@ -362,6 +363,7 @@ int main()
         {
             out = std::string("harness-error:") + e.what();
         }
+        vh::case_alarm(0);
         std::cout << out << std::endl;
     }
     return 0;
